@@ -64,7 +64,15 @@ def make_dataset():
 
 
 ARRAYS = [("a", ASHAPE, 0), ("g.g", ASHAPE, 0), ("g.x", (2,), 0), ("g.y", (3,), 0), ("a4", ASHAPE, 1)]
-N_FIXED = 1 + len(ARRAYS) + 1          # root sequence, arrays, dataset.functions
+# the BaseType objects of the opened dataset (id, reference of the proxy their data is) and the grid (children, by
+# reference): objects 7..10 and 11 of the model heap
+VARS = [("a", 1), ("g.g", 2), ("g.x", 3), ("g.y", 4)]
+N_PROXY = 1 + len(ARRAYS) + 1          # root sequence, arrays, dataset.functions
+GRID_REF = N_PROXY + len(VARS)
+GRID_KIDS = [N_PROXY + 1, N_PROXY + 2, N_PROXY + 3]
+N_FIXED = GRID_REF + 1
+# source values: offset and shape per variable id (distinct values: an array determines the positions it holds)
+SOURCE = {"a": (0, ASHAPE), "g.g": (50, ASHAPE), "g.x": (100, (2,)), "g.y": (200, (3,))}
 
 
 class WSGIAdapter(BaseAdapter):
@@ -194,6 +202,55 @@ def install_wrappers():
     hd.BaseProxyDap2.__getitem__ = mk(o_a2)
     hd.BaseProxyDap4.__getitem__ = mk(o_a4)
 
+    # BaseType.__getitem__(index) and GridType.__getitem__(non-string key) of *registered* objects (the in-process
+    # server indexes its own, unregistered, variables): one top-level event each, the objects they return are
+    # registered (children of a returned grid first, then the grid), the GETs they issue are nested
+    import pydap.model as pm
+    from props.c03 import tup_sexp
+
+    o_bt, o_gt = pm.BaseType.__getitem__, pm.GridType.__getitem__
+
+    def bt(self, index):
+        t = TR
+        if t is None or t.depth or id(self) not in t.refs:
+            return o_bt(self, index)
+        tup = index if isinstance(index, tuple) else (index,)
+        r = t.refs[id(self)]
+        t.depth += 1
+        out = None
+        try:
+            out = o_bt(self, index)
+            return out
+        finally:
+            t.depth -= 1
+            if out is not None:
+                t.register(out)
+            t.event("(vget %d %s)" % (r, tup_sexp(tup)))
+
+    def gt(self, key):
+        t = TR
+        if (t is None or t.depth or id(self) not in t.refs or isinstance(key, str)
+                or (isinstance(key, tuple) and len(key) > 0 and all(isinstance(k, str) for k in key))):
+            return o_gt(self, key)
+        tup = key if isinstance(key, tuple) else (key,)
+        r = t.refs[id(self)]
+        t.depth += 1
+        out = None
+        try:
+            out = o_gt(self, key)
+            return out
+        finally:
+            t.depth -= 1
+            if isinstance(out, pm.GridType):
+                for child in out._dict.values():
+                    t.register(child)
+                t.register(out)
+            elif out is not None:
+                t.register(out)
+            t.event("(ggrid %d %s)" % (r, tup_sexp(tup)))
+
+    pm.BaseType.__getitem__, pm.GridType.__getitem__ = bt, gt
+
 
 def key_sexp(key):
     from pydap.handlers.lib import ConstraintExpression
@@ -225,9 +282,14 @@ def req_parts(url):
     if "(" in proj:
         ids, triples = [proj], []
     else:
-        m = re.match(r"^(.*?)((\[[^\]]*\])*)$", proj)
-        ids = m.group(1).split(",") if m.group(1) else []
-        triples = SLAB.findall(m.group(2))
+        # observables at the level the property speaks about: the variable ids and the per-axis triples, wherever
+        # in an item the hyperslab is written (`s.t,s.f[0:1:8]` and `s[0:1:8].t,s.f` name the same request)
+        ids, triples = [], []
+        for item in (proj.split(",") if proj else []):
+            slabs = re.findall(r"(?:\[[^\]]*\])+", item)
+            ids.append(re.sub(r"\[[^\]]*\]", "", item))
+            if slabs and not triples:
+                triples = SLAB.findall("".join(slabs))
     return ext, ids, triples, sel
 
 
@@ -291,7 +353,14 @@ class Tracer:
             except Exception as e:
                 return "escaped:" + type(e).__name__
         if isinstance(o, hd.BaseProxyDap2):
-            return "(o %s %s)" % (hx(o.id), self.sess_label(o.session))
+            from props.c03 import tup_sexp
+            return "(arr %s %s %s)" % (hx(o.id), tup_sexp(tuple(o.slice)), self.sess_label(o.session))
+        import pydap.model as pm
+        if isinstance(o, pm.GridType):
+            return "(grid (%s) %d)" % (" ".join(str(self.refs.get(id(c), "unregistered")) for c in o._dict.values()),
+                                       1 if o.output_grid else 0)
+        if isinstance(o, pm.BaseType):
+            return "(var %s %s)" % (hx(o.id), self.data_obs(o.id, o._data))
         if isinstance(o, Functions):
             return "(o %s %s)" % (hx(o.baseurl), self.sess_label(o.session))
         if isinstance(o, ServerFunction):
@@ -299,6 +368,25 @@ class Tracer:
         if isinstance(o, ServerFunctionResult):
             return "(o %s %s %s)" % (hx(BASE), hx(o.id), self.sess_label(o.session))
         return "?"
+
+    def data_obs(self, vid, d):
+        """what a variable holds: `(p ref)` for a registered proxy, else the received array as shape + the source
+        positions per source axis (decoded from the values: the sources hold distinct values)"""
+        if id(d) in self.refs:
+            return "(p %d)" % self.refs[id(d)]
+        try:
+            a = np.asarray(d)
+            off, shape = SOURCE[vid]
+            flat = a.astype("i8").ravel() - off
+            if a.size == 0:
+                return "(v (%s) (%s))" % (" ".join(map(str, a.shape)), " ".join("()" for _ in shape))
+            if flat.min() < 0 or flat.max() >= int(np.prod(shape)):
+                return "(v-undecodable %r)" % (a.shape,)
+            ax = np.unravel_index(flat, shape)
+            return "(v (%s) (%s))" % (" ".join(map(str, a.shape)),
+                                      " ".join("(%s)" % " ".join(str(int(x)) for x in sorted(set(c.tolist()))) for c in ax))
+        except Exception as e:
+            return "escaped:" + type(e).__name__
 
     def snapshot(self):
         return [None if o is None else self.obs(o) for o in self.objs]
@@ -312,7 +400,7 @@ class Tracer:
 class Sim:
     """one opened dataset on one session, traced"""
 
-    def __init__(self, kind="plain", trace=True):
+    def __init__(self, kind="plain", trace=True, output_grid=False):
         global TR
         from pydap.client import open_url
         from pydap.handlers.lib import BaseHandler
@@ -322,6 +410,7 @@ class Sim:
         block_network()
         install_wrappers()
         self.kind = kind
+        self.output_grid = output_grid
         self.wire = []                 # URLs that reached the adapter
         self.app_hits = []
         inner = ServerSideFunctions(BaseHandler(make_dataset()))
@@ -340,14 +429,15 @@ class Sim:
         self.tr = Tracer(self.sess) if trace else None
         TR = self.tr
         try:
-            self.ds = open_url(BASE, session=self.sess, protocol="dap2")
+            self.ds = open_url(BASE, session=self.sess, protocol="dap2", output_grid=output_grid)
             self.a4 = hd.BaseProxyDap4(BASE, "a4", np.dtype("i4"), ASHAPE, session=self.sess)
             if self.tr:
                 t = self.tr
                 if not t.root_seen:
                     t.ref(self.ds["s"].data)
-                fixed = [self.ds["a"].data, self.ds["g"]["g"].data, self.ds["g"]["x"].data, self.ds["g"]["y"].data,
-                         self.a4, self.ds.functions]
+                g = self.ds["g"]
+                fixed = [self.ds["a"].data, g["g"].data, g["x"].data, g["y"].data, self.a4, self.ds.functions,
+                         self.ds["a"], g["g"], g["x"], g["y"], g]
                 for i, o in enumerate(fixed):
                     t.set_ref(o, 1 + i)
                 t.snaps.insert(0, None)
@@ -367,8 +457,11 @@ class Sim:
     # ---- model line ---------------------------------------------------------------------------
     def model_line(self, old=False):
         arrays = " ".join("(%s (%s) %d)" % (hx(n), " ".join(map(str, sh)), d4) for n, sh, d4 in ARRAYS)
-        return "px-run %d (open %s () %d %s (%s %s %s) (%s)) (%s)" % (
-            1 if old else 0, hx(BASE), SESS_LABEL, hx("s"), hx("i"), hx("f"), hx("t"), arrays, " ".join(self.tr.events))
+        vars_ = " ".join("(%s %d)" % (hx(n), r) for n, r in VARS)
+        grids = "((%s) %d)" % (" ".join(map(str, GRID_KIDS)), 1 if self.output_grid else 0)
+        return "px-rung %d (open %s () %d %s (%s %s %s) (%s)) (%s) (%s) (%s)" % (
+            1 if old else 0, hx(BASE), SESS_LABEL, hx("s"), hx("i"), hx("f"), hx("t"), arrays, vars_, grids,
+            " ".join(self.tr.events))
 
     def impl_output(self):
         """same shape as the driver's answer: observables after every event (the state right after open is
@@ -480,6 +573,7 @@ class HistoryRun:
         self.created = {}                           # live index -> (url, columns) at creation
         self.reads = []                             # every read value in order (for cross-session comparison)
         self.failed = False
+        self.grids = []                             # grids returned by grid reads (output_grid on)
 
     def fail(self, what, observed, expected):
         self.failed = True
@@ -544,7 +638,25 @@ class HistoryRun:
                         self.reads.append(canon(np.asarray(sim.ds["a"][op[1]].data)))
                     elif op[0] == "grid":
                         g = sim.ds["g"][op[1]]
-                        self.reads.append(canon(np.asarray(g.data if not hasattr(g, "array") else g.array.data)))
+                        if hasattr(g, "array"):
+                            self.grids.append(g)
+                            self.reads.append([canon(np.asarray(c.data)) for c in g.children()])
+                        else:
+                            self.reads.append(canon(np.asarray(g.data)))
+                    elif op[0] == "gmap":           # a map (or the array) of the opened grid, read on its own
+                        self.reads.append(canon(np.asarray(sim.ds["g"][op[1]][op[2]].data)))
+                    elif op[0] in ("gsub", "gvar"):  # index a grid an earlier read returned / one of its variables
+                        if self.grids:
+                            g = self.grids[op[1] % len(self.grids)]
+                            try:
+                                if op[0] == "gsub":
+                                    r = g[op[2]]
+                                    self.grids.append(r)
+                                    self.reads.append([canon(np.asarray(c.data)) for c in r.children()])
+                                else:
+                                    self.reads.append(canon(np.asarray(g[op[2]][op[3]].data)))
+                            except IndexError:
+                                self.reads.append("IndexError")     # numpy: too many indices / out of bounds locally
                     elif op[0] == "dap4":
                         try:
                             sim.a4[op[1]]
@@ -593,6 +705,32 @@ class HistoryRun:
             if v != self.first[i]:
                 self.fail("a derived object reads other data than a fresh client applying the same selection",
                           self.first[i], v)
+
+
+GRID_IDX = [(0,), (1,), (-1,), (slice(None), 1), (slice(None), slice(0, 3, 2)), (Ellipsis, slice(0, 2)), (1, slice(1, None)),
+            (slice(0, 1),), (Ellipsis,), (), (slice(None, None, 2), slice(1, 5, 3)), (Ellipsis, -1), (slice(-1, None), Ellipsis),
+            (0, 2), (slice(1, 4, 3), slice(None))]
+SUB_IDX = [(0,), (slice(None),), (slice(0, 1),), (Ellipsis,), (slice(None, None, 2),), (slice(None), 0), (Ellipsis, slice(0, 1)),
+           (-1,), (slice(None), slice(None), 0)]
+MAP_IDX = [(0,), (slice(None),), (slice(0, 2),), (slice(None, None, 2),), (-1,), (slice(1, 5, 3),), (Ellipsis,)]
+
+
+def gen_grid_ops(rng, n_ops):
+    """read histories on the opened grid, its maps, the grids earlier reads returned and their variables"""
+    ops = []
+    for _ in range(n_ops):
+        r = rng.random()
+        if r < 0.45:
+            ops.append(("grid", rng.choice(GRID_IDX)))
+        elif r < 0.6:
+            ops.append(("gmap", rng.choice(["g", "x", "y"]), rng.choice(MAP_IDX)))
+        elif r < 0.78:
+            ops.append(("gsub", rng.randrange(8), rng.choice(SUB_IDX)))
+        elif r < 0.9:
+            ops.append(("gvar", rng.randrange(8), rng.choice(["g", "x", "y"]), rng.choice(MAP_IDX)))
+        else:
+            ops.append(("array", rng.choice(GRID_IDX)))
+    return ops
 
 
 def ops_json(ops):
